@@ -51,6 +51,7 @@ if [ "$res_apply" = ok ]; then
     results="$results{\"property\":\"$p\",\"exit\":$rc,\"violation_lines\":$v},"
   done
   git -C /repo checkout -- .
+  git -C /repo clean -fdq   # a change may add files
   git -C /repo status --short
 fi
 # replay files of seeded violations are scratch: keep one per property in the seeded dir, remove from /verif/replays
